@@ -264,11 +264,16 @@ class CommentStyle:
         # '#=' would be a valid single-line comment.
         if cls.can_handle_multi() and text.startswith(cls.MULTI_LINE.start):
             for i, line in enumerate(lines):
-                if cls.MULTI_LINE.end in line:
-                    # The comment ends here. If something follows it on the
-                    # same line, the block cannot be taken out of the text in
-                    # whole lines.
-                    if not line.rstrip().endswith(cls.MULTI_LINE.end):
+                # The comment ends at the first delimiter (behind the opening
+                # one on the first line). If something follows it on the same
+                # line - also something that ends in a comment of its own -
+                # the block cannot be taken out of the text in whole lines.
+                position = line.find(
+                    cls.MULTI_LINE.end,
+                    len(cls.MULTI_LINE.start) if i == 0 else 0,
+                )
+                if position != -1:
+                    if line[position + len(cls.MULTI_LINE.end) :].strip():
                         raise CommentParseError(
                             "Text follows the comment delimiter"
                         )
